@@ -99,6 +99,12 @@ pub trait OrNumberError<T, Source: 'static + std::error::Error>: Sized {
             self.as_option() is None ==> (r matches Err(e) && e.code() == ErrorType::Unknown && !e.from_data());
 }
 
+// std::cmp::Ordering readers (assumed: their documented meaning)
+pub assume_specification [std::cmp::Ordering::is_lt] (o: Ordering) -> (r: bool) ensures r == (o == Ordering::Less);
+pub assume_specification [std::cmp::Ordering::is_le] (o: Ordering) -> (r: bool) ensures r == (o == Ordering::Less || o == Ordering::Equal);
+pub assume_specification [std::cmp::Ordering::is_gt] (o: Ordering) -> (r: bool) ensures r == (o == Ordering::Greater);
+pub assume_specification [std::cmp::Ordering::is_ge] (o: Ordering) -> (r: bool) ensures r == (o == Ordering::Greater || o == Ordering::Equal);
+
 /// stands for every `format!(…)` in the extracted text (rule R2)
 #[verifier::external_body]
 pub fn verif_msg() -> String { unimplemented!() }
@@ -307,6 +313,19 @@ pub open spec fn deferred_once<Sz, N, Sy, C, B>(o: St<Sz, N, Sy, C, B>, n: St<Sz
 pub open spec fn truthy(t: GarnishDataType) -> bool {
     t != GarnishDataType::False && t != GarnishDataType::Unit
 }
+
+/// C12: operand type pairs on which an order is defined (slices of char/byte lists are compared too)
+pub open spec fn comparable(l: GarnishDataType, r: GarnishDataType) -> bool {
+    (l == GarnishDataType::Number && r == GarnishDataType::Number) || (l == GarnishDataType::Char && r == GarnishDataType::Char)
+    || (l == GarnishDataType::Byte && r == GarnishDataType::Byte) || (l == GarnishDataType::CharList && r == GarnishDataType::CharList)
+    || (l == GarnishDataType::ByteList && r == GarnishDataType::ByteList) || (l == GarnishDataType::Slice && r == GarnishDataType::Slice)
+}
+
+/// C12: how each of the four instructions reads one Ordering
+pub open spec fn reads_lt(o: Ordering) -> bool { o == Ordering::Less }
+pub open spec fn reads_le(o: Ordering) -> bool { o == Ordering::Less || o == Ordering::Equal }
+pub open spec fn reads_gt(o: Ordering) -> bool { o == Ordering::Greater }
+pub open spec fn reads_ge(o: Ordering) -> bool { o == Ordering::Greater || o == Ordering::Equal }
 
 /// which of the four range instructions `make_range_internal` is running
 pub open spec fn range_instruction(start_exclusive: bool, end_exclusive: bool) -> Instruction {
